@@ -331,6 +331,9 @@ func (x *fx) refOf(v *Val) string {
 	if _, ok := v.T.Underlying().(*types.Slice); ok {
 		return slBase(v.S)
 	}
+	if b, ok := v.T.Underlying().(*types.Basic); ok && b.Info()&types.IsString != 0 {
+		return slBase(v.S) // strings are byte views with a storage of their own
+	}
 	return ptrRef(v.S)
 }
 
